@@ -1501,9 +1501,14 @@ class ExtendedToOriginalDecorator:
         try:
             outcome = getattr(self.decorated, "addUnexpectedSuccess", None)
             if outcome is None:
+                # Not every test object (PlaceHolder, for one) has a fail()
+                # method or a usable failureException.
+                failure_exception = (
+                    getattr(test, "failureException", None) or AssertionError
+                )
                 try:
-                    test.fail("")
-                except test.failureException:
+                    raise failure_exception("")
+                except failure_exception:
                     return self.addFailure(test, sys.exc_info())
             if details is not None:
                 try:
